@@ -51,6 +51,11 @@ func (v *Vue) evalAttributes(ctx VueContext, n *html.Node) (map[string]any, erro
 				return nil, fmt.Errorf("error evaluating attr %s: %w", boundName, err)
 			}
 			if !helpers.IsTruthy(boundValue) {
+				// A falsy value is not rendered as an attribute, but 0 and false are still values for the
+				// caller: a prop handed to an include keeps its type.
+				if boundValue != nil && boundValue != "" {
+					results[boundName] = boundValue
+				}
 				continue
 			}
 			if _, seen := results[boundName]; !seen {
